@@ -27,6 +27,7 @@ fn dispatch(op: &str, args: &[String]) -> String {
         "print" => ops_xml::print(args),
         "sinks" => ops_xml::sinks(args),
         "attrs" => ops_xml::attrs(args),
+        "nsinfo" => ops_xml::nsinfo(args),
         "chardata" => ops_dom::chardata(args),
         "dom" => ops_domhist::dom(args),
         "domx" => ops_domhist::domx(args),
